@@ -2,6 +2,7 @@
 //! specifications under /verif/spec.  It records; it does not judge.
 mod amf;
 mod chunk;
+mod msg;
 mod util;
 
 use util::parse_args;
@@ -27,6 +28,12 @@ fn main() {
             let shard: u64 = a.rest.get(1).map(|s| s.parse().unwrap()).unwrap_or(0);
             let nshards: u64 = a.rest.get(2).map(|s| s.parse().unwrap()).unwrap_or(1);
             let info = amf::generate(&kind, &a.tier, a.seed, shard, nshards, &a.out);
+            println!("{}", info);
+        }
+        "msg" => {
+            let shard: u64 = a.rest.get(0).map(|s| s.parse().unwrap()).unwrap_or(0);
+            let nshards: u64 = a.rest.get(1).map(|s| s.parse().unwrap()).unwrap_or(1);
+            let info = msg::generate(&a.tier, a.seed, shard, nshards, &a.out);
             println!("{}", info);
         }
         x => {
